@@ -95,7 +95,7 @@ def run_shards(modname, specs, jobs, tmp):
                 # "pyopt" shards run the same workload under `python -O` (asserts compiled away): a library must not depend on
                 # the side effects of its assert statements
                 [sys.executable] + (["-O"] if spec.get("pyopt") else []) + ["-m", "vmon.worker", modname, sf, of],
-                cwd=VERIF, env=env, stdout=logfp, stderr=subprocess.STDOUT,
+                cwd=VERIF, env={**env, **spec["env"]} if spec.get("env") else env, stdout=logfp, stderr=subprocess.STDOUT,
             )
             hard = float(spec.get("timeout_s", 2 * float(spec.get("budget_s", 60)) + 120))
             running.append((i, spec, p, time.monotonic() + hard, of, lf, logfp))
@@ -155,7 +155,8 @@ def main(argv=None):
     if args.replay:
         with open(args.replay) as fp:
             rp = json.load(fp)
-        specs = [{"name": "replay", "replay": rp["case"], "budget_s": 600, "pyopt": bool(isinstance(rp["case"], dict) and rp["case"].get("pyopt"))}]
+        specs = [{"name": "replay", "replay": rp["case"], "budget_s": 600, "pyopt": bool(isinstance(rp["case"], dict) and rp["case"].get("pyopt")),
+                  "env": (rp["case"].get("env") if isinstance(rp["case"], dict) else None) or {}}]
     else:
         specs = mod.shards(args.tier, args.seed)
         for s in specs:
